@@ -47,7 +47,7 @@ pub fn generate(thorough: bool, seed: u64, part: (usize, usize), em: &mut Emitte
         for (k, flags) in [0x62898235u32, 0x42898235, 0xe2898235, 0x42898234, 0x60898235, 0x62088235].iter().enumerate() {
             let mut ti = crate::props::c15::av(2, &crate::props::c15::utf16("D")); ti.extend(crate::props::c15::av(7, &r.bytes(8))); ti.extend(crate::props::c15::av(0, &[]));
             let scv = r.bytes(8); let mut sc = [0u8; 8]; sc.copy_from_slice(&scv);
-            let c = crate::props::c01::Case { dom: "DOM".into(), user: "user".into(), pw: "pw".into(), from_hash: false, ra: false, id: 1 + k % 2, flags: *flags, sc, ti, reply: "honest".into(), reply1: "honest".into() };
+            let c = crate::props::c01::Case { dom: "DOM".into(), user: "user".into(), pw: "pw".into(), from_hash: false, ra: false, id: 1 + k % 2, flags: *flags, sc, ti, reply: "honest".into(), reply1: "honest".into(), pre: String::new() };
             crate::props::c01::run(em, &c);
         }
     }
